@@ -80,10 +80,20 @@ def check_per_sample_lists(prog: Program, res: Result, rule: str, quals: Iterabl
             res.ob(rule, ok_init, fi.qualname, f"`{nm}` starts empty, outside the loop", f"`{nm}` is not initialised to an empty list exactly once before the per-sample loop", fi.where)
         params = set(fi.params)
         for lp in loops:
-            rebound = sorted({t for st in ast.walk(lp) if isinstance(st, (ast.Assign, ast.AugAssign, ast.AnnAssign))
-                              for tg in astq.stmt_targets(st) for t in astq.target_names(tg) if t in params and isinstance(tg, (ast.Name, ast.Tuple, ast.List))})
-            res.ob(rule, not rebound, fi.qualname, "no parameter is re-bound inside the per-sample loop",
-                   f"parameter(s) {rebound} are re-assigned inside the per-sample loop: what is computed for one sample replaces the caller's value for every later "
-                   "sample of the batch", f"{fi.module.relpath}:{lp.lineno}")
+            # names that carry per-sample data: the loop variable and everything assigned inside the loop
+            lv = astq.target_names(lp.target)
+            inside = {t for st in ast.walk(lp) if isinstance(st, (ast.Assign, ast.AugAssign, ast.AnnAssign)) for tg in astq.stmt_targets(st) for t in astq.target_names(tg)}
+            rebound = []
+            for st in ast.walk(lp):
+                if not isinstance(st, (ast.Assign, ast.AugAssign, ast.AnnAssign)) or getattr(st, "value", None) is None:
+                    continue
+                tgt = {t for tg in astq.stmt_targets(st) if isinstance(tg, (ast.Name, ast.Tuple, ast.List)) for t in astq.target_names(tg)} & params
+                # x = x.cpu() is the same value every round; x = f(x, <something of this sample>) is not
+                if tgt and (astq.names_in(st.value) & ((lv | inside) - tgt)):
+                    rebound += sorted(tgt)
+            rebound = sorted(set(rebound))
+            res.ob(rule, not rebound, fi.qualname, "no parameter is re-bound from per-sample data inside the per-sample loop",
+                   f"parameter(s) {rebound} are re-assigned inside the per-sample loop from data of the current sample: what is computed for one sample replaces the caller's value "
+                   "for every later sample of the batch", f"{fi.module.relpath}:{lp.lineno}")
     if floor is not None:
         res.floor(rule, floor)
